@@ -229,6 +229,9 @@ func (e *smEngine) fieldSizeSpec(st *State, goName string) (string, bool) {
 	}
 	f := e.ms.field(goName)
 	if f == nil {
+		if fieldType(e.ms.Struct, goName) != nil {
+			return "0", true // bookkeeping fields (state, sizeCache) contribute no bytes
+		}
 		return "", false
 	}
 	v := c.loadField(st, e.x, goName)
